@@ -71,7 +71,7 @@ def run_xlift(unit, tier, seed):
     rec = json.loads(p.stdout.split("@@RESULT@@")[1])
     # native replay of refuted identities on the unmodified package (plain floats)
     for o in rec.get("obligations", []):
-        if o["result"] == "refuted" and o.get("replay_spec"):
+        if o["result"] in ("refuted", "bounded-fail") and o.get("replay_spec"):
             sp = o["replay_spec"]
             try:
                 q = subprocess.run([sys.executable, "-c",
